@@ -165,6 +165,12 @@ where
                 c.set_position(0);
                 own(T::deserialize_full(&mut c)?)
             }
+            "eps8" => {
+                // the same bytes placed at 8 modulo 16 (a legitimate buffer for ε-serde)
+                let mut bytes: Vec<u8> = Vec::new();
+                rcl.serialize(&mut bytes)?;
+                St::Eps(T::deserialize_eps(crate::util::leak_aligned(&bytes, true))?)
+            }
             "eps" => {
                 let mut c = <AlignedCursor>::new();
                 rcl.serialize(&mut c)?;
